@@ -152,43 +152,24 @@ theorem restore_label_target (pre post : List Ev) (l : String) (its : List DItem
     simpa [flat] using hflat
 
 
-/-! ### RESTORE without a label: the full statement, its failure on the current tree, the partial theorem
+/-! ### RESTORE without a label
 
-`gen_restore_stmt` pushes -1 for a RESTORE without label and `_exec_restore` stores it in
-`data_part`; Python's negative list index then selects the LAST part. -/
+`gen_restore_stmt` pushes 0 for a RESTORE without label (as repaired: it pushed -1, which `_exec_restore` stored in
+`data_part`, and Python's negative list index then selected the LAST group). -/
 
-/-- full statement: RESTORE without a label rewinds to the first item -/
+/-- RESTORE without a label rewinds to the first item of the whole data section -/
 def RestorePlainRewinds : Prop :=
-  ∀ data : List (List DItem), Good data → ∀ k, readMany data (restore (-1)) k = data.flatten.take k
+  ∀ data : List (List DItem), Good data → ∀ k, readMany data (restore 0) k = data.flatten.take k
 
-theorem restore_plain_fails : ¬ RestorePlainRewinds := by
-  intro h
-  have := h [[.str ['1']], [.str ['2']]] (by intro p hp; simp at hp; rcases hp with rfl | rfl <;> simp) 1
-  revert this; decide
+theorem restore_plain_rewinds : RestorePlainRewinds := by
+  intro data hg k
+  have := restore_to_part data hg 0 (Nat.zero_le _) k
+  simpa using this
 
-theorem readMany_single_neg (p : List DItem) : ∀ (k j : Nat), j + k ≤ p.length →
-    readMany [p] ⟨-1, j⟩ k = (p.drop j).take k
-  | 0, _, _ => by simp [readMany]
-  | k + 1, j, h => by
-    have hj : j < p.length := by omega
-    have hpj : p[j]? = some p[j] := by simp [hj]
-    have hidx : pyIndex [p] (-1) = some p := by simp [pyIndex]
-    have hd : ∀ n, (p.drop j).take (n + 1) = p[j] :: (p.drop (j + 1)).take n := by
-      intro n; rw [List.drop_eq_getElem_cons hj]; rfl
-    by_cases hlast : j + 1 < p.length
-    · have ih := readMany_single_neg p k (j + 1) (by omega)
-      have hnot : ¬ (j + 1 ≥ p.length) := by omega
-      rw [hd]
-      simp [readMany, readRaw, hidx, hpj, hnot, ih]
-    · have hk : k = 0 := by omega
-      subst hk
-      rw [hd]
-      simp [readMany, readRaw, hidx, hpj]
-
-/-- partial: with a single DATA group RESTORE does rewind (until the group is exhausted) -/
-theorem restore_plain_partial (p : List DItem) (k : Nat) (hk : k ≤ p.length) :
-    readMany [p] (restore (-1)) k = p.take k := by
-  simpa [restore] using readMany_single_neg p k 0 (by omega)
+/-- the defect that was repaired, kept as a witness: with part index -1 the cursor starts at the last group -/
+theorem restore_minus_one_was_wrong :
+    readMany [[.str ['1']], [.str ['2']]] (restore (-1)) 1 ≠ ([[.str ['1']], [.str ['2']]] : List (List DItem)).flatten.take 1 := by
+  decide
 
 -- non-vacuity
 example : parseData "a, \"b,c\" ,,d ".toList =
